@@ -121,6 +121,8 @@ pub struct MintInfo {
 }
 
 pub struct World {
+    /// reward mints (authority = reward_super wallet)
+    pub reward_mints: Vec<MintInfo>,
     pub payer: Pubkey,
     pub config: Pubkey,
     pub fee_authority: Pubkey,
@@ -419,6 +421,15 @@ impl Gen {
         if pools.len() >= 2 {
             roles.push(Role::Router);
         }
+        // reward mints (Rewards profile): authority is the reward super authority's wallet
+        let mut reward_mints: Vec<MintInfo> = Vec::new();
+        if knobs.profile == Profile::Rewards {
+            for _ in 0..3 {
+                let mk = new_key(&mut rng);
+                world::create_mint(&mut l, &payer, &mk, &reward_super, 6, None);
+                reward_mints.push(MintInfo { key: mk, program: ix::tok(), authority: reward_super });
+            }
+        }
         for (id, role) in roles.iter().enumerate() {
             let wallet = new_key(&mut rng);
             world::fund(&mut l, &wallet, 1u64 << 44);
@@ -428,6 +439,13 @@ impl Gen {
                 world::create_token_account(&mut l, &payer, &ta, &m.key, &wallet);
                 world::mint_to(&mut l, &m.program, &m.key, &ta, &m.authority, 1u64 << 58);
                 tokens.insert(m.key, ta);
+            }
+            if *role == Role::Lp {
+                for m in &reward_mints {
+                    let ta = new_key(&mut rng);
+                    world::create_token_account(&mut l, &payer, &ta, &m.key, &wallet);
+                    tokens.insert(m.key, ta);
+                }
             }
             let arng = rng.fork(id as u64 + 1);
             actors.push(Actor {
@@ -439,7 +457,11 @@ impl Gen {
             });
         }
         // the fee authority and the collector act through their own wallets
-        for (role, wallet) in [(Role::FeeAuth, fee_authority), (Role::Collector, collector)] {
+        let mut special = vec![(Role::FeeAuth, fee_authority), (Role::Collector, collector)];
+        if knobs.profile == Profile::Rewards {
+            special.push((Role::RewardAuth, reward_super));
+        }
+        for (role, wallet) in special {
             let id = actors.len();
             let mut tokens = BTreeMap::new();
             if role == Role::Collector {
@@ -459,6 +481,7 @@ impl Gen {
             });
         }
         let w = World {
+            reward_mints,
             payer,
             config,
             fee_authority,
@@ -683,7 +706,7 @@ impl Gen {
             Role::Keeper => 2_000 + self.rng.below(20_000),
             Role::FeeAuth => 10_000 + self.rng.below(60_000),
             Role::Collector => 10_000 + self.rng.below(60_000),
-            Role::RewardAuth => 5_000 + self.rng.below(40_000),
+            Role::RewardAuth => 1_000 + self.rng.below(12_000),
         };
         self.push(self.now_ms + next, Ev::Wake(id));
     }
@@ -885,7 +908,10 @@ fn plan_lp(w: &World, knobs: &Knobs, actor: &mut Actor, l: &Ledger) -> Vec<(Tx, 
     let mine = my_positions(l, &actor.wallet);
     let rng = &mut actor.rng.clone();
     let mut flow: Vec<(Tx, String)> = Vec::new();
-    let action = if mine.is_empty() { 0 } else { rng.below(12) };
+    let mut action = if mine.is_empty() { 0 } else { rng.below(12) };
+    if !mine.is_empty() && knobs.profile == Profile::Rewards && rng.chance(1, 4) {
+        action = 100;
+    }
     match action {
         0 | 1 | 2 if mine.len() < 4 => {
             // open (+ init arrays) + increase
@@ -989,6 +1015,29 @@ fn plan_lp(w: &World, knobs: &Knobs, actor: &mut Actor, l: &Ledger) -> Vec<(Tx, 
         9 => {
             let (pk, _p) = &mine[rng.idx(mine.len())];
             flow.push((tx1(close_ix(actor, pk)), "close_position".into()));
+        }
+        100 => {
+            // collect rewards (optionally after an update in the same or a separate transaction)
+            let (pk, p) = &mine[rng.idx(mine.len())];
+            if let (Some(pi), Some(pool)) = (pool_of(w, &p.whirlpool), l.data(&p.whirlpool).and_then(decode::pool)) {
+                let la = liq_accounts(actor, &pi.keys, pk, p);
+                let mut ixs = Vec::new();
+                if rng.chance(2, 3) {
+                    ixs.push(ix::update_fees_and_rewards(&pi.keys.whirlpool, &pk.position, &la.ta_lower, &la.ta_upper));
+                }
+                let inited: Vec<usize> = (0..3).filter(|i| pool.rewards[*i].initialized()).collect();
+                let idx = if !inited.is_empty() && rng.chance(9, 10) { inited[rng.idx(inited.len())] } else { rng.below(3) as usize };
+                let r = &pool.rewards[idx];
+                let owner_acct = actor.tokens.get(&r.mint).cloned().unwrap_or_else(|| actor.tokens[&pi.keys.mint_a]);
+                ixs.push(crate::gen2::collect_reward_ix(rng, &pi.keys, &actor.wallet, pk, idx as u8, r, &owner_acct));
+                if rng.chance(1, 2) {
+                    flow.push((Tx { ixs }, "update+collect_reward (atomic)".into()));
+                } else {
+                    for i in ixs {
+                        flow.push((tx1(i), "collect_reward".into()));
+                    }
+                }
+            }
         }
         10 | 11 => {
             // reposition
@@ -1297,7 +1346,10 @@ fn plan_keeper(w: &World, actor: &mut Actor, l: &Ledger) -> Vec<(Tx, String)> {
     let rng = &mut actor.rng.clone();
     let mut flow = Vec::new();
     let pi = &w.pools[rng.idx(w.pools.len())];
-    let ps = decode::positions_of_pool(l, &pi.keys.whirlpool);
+    let mut ps = decode::positions_of_pool(l, &pi.keys.whirlpool);
+    if rng.chance(4, 5) && ps.iter().any(|(_, p)| p.liquidity > 0) {
+        ps.retain(|(_, p)| p.liquidity > 0);
+    }
     if !ps.is_empty() {
         let (k, p) = &ps[rng.idx(ps.len())];
         let sp = pi.keys.tick_spacing;
